@@ -16,7 +16,7 @@ import (
 
 func init() {
 	Register(&Scenario{Prop: "C10", Name: "rejected-do-not-block", Run: scenC10, SoftParks: true, Weight: 1,
-		Rule: "honest writer W, receiver R (ReplicationConcurrency in {1,2,32}) and an adversary; W writes 1-3 entries that R replicates (in a quarter of the runs none: R has never checked an entry of W's), then 1-4 more while R is cut off (their announcements are lost); after the heal, before any honest exchange, the adversary announces to R 1-3 messages whose head lists mix copies of W's valid current heads with 1-3 rejected heads drawn from {non-writer author, writer's identity block with a foreign signature, the same keyed with the forger's key, the same naming a predecessor nobody holds, (a third of the runs: the adversary is a listed writer) a valid entry of the adversary on top of such a forged entry, or on top of an entry W wrote for another database (refused by the replicator while it fetches the ancestry), entry of another database written by W, valid entry with a wrong claimed hash} at every position (permutation drawn per run), block fetches complete in a drawn order; in half the runs with a listed adversary it then floods: while R's store holds a fetched batch with a log the join refuses, one message announces 140 valid heads of the adversary's own (more than the 128 replicator events the store queues), and the store goes on; then W's valid heads are announced again by an honest message (topic announcement, head exchange after the pollers notice the heal, or manual Sync, drawn per run); oracle: at rest R holds every entry W wrote; non-trivial = at least one mixed message (valid and rejected heads together) was processed and R lacked >=1 valid entry before it"})
+		Rule: "honest writer W, receiver R (ReplicationConcurrency in {1,2,32}) and an adversary; W writes 1-3 entries that R replicates (in a quarter of the runs none: R has never checked an entry of W's), then 1-4 more while R is cut off (their announcements are lost); after the heal, before any honest exchange, the adversary announces to R 1-3 messages whose head lists mix copies of W's valid current heads with 1-3 rejected heads drawn from {non-writer author, writer's identity block with a foreign signature, the same keyed with the forger's key, the same naming a predecessor nobody holds, (a third of the runs: the adversary is a listed writer) a valid entry of the adversary on top of such a forged entry, or on top of an entry W wrote for another database (refused by the replicator while it fetches the ancestry), entry of another database written by W, valid entry with a wrong claimed hash, copy of a valid current head with its payload altered after signing} at every position (permutation drawn per run), block fetches complete in a drawn order; in half the runs with a listed adversary it then floods: while R's store holds a fetched batch with a log the join refuses, one message announces 140 valid heads of the adversary's own (more than the 128 replicator events the store queues), and the store goes on; then W's valid heads are announced again by an honest message (topic announcement, head exchange after the pollers notice the heal, or manual Sync, drawn per run); oracle: at rest R holds every entry W wrote; non-trivial = at least one mixed message (valid and rejected heads together) was processed and R lacked >=1 valid entry before it"})
 }
 
 func scenC10(k *K) {
@@ -175,6 +175,19 @@ func scenC10(k *K) {
 				return nil
 			}
 			return child
+		case "altered-valid":
+			// a copy of one of W's valid current heads with its payload altered after signing
+			// (the genuine hash, signature and identity kept): refused, and the genuine head
+			// announced afterwards is as good as ever
+			vs := valid()
+			if len(vs) == 0 || len(vs[0].Payload) == 0 {
+				return nil
+			}
+			e := vs[0]
+			pl := append([]byte(nil), e.Payload...)
+			pl[len(pl)/2] ^= 0x01
+			e.Payload = pl
+			return e
 		case "foreign-db":
 			if foreign == nil {
 				return nil
@@ -198,7 +211,7 @@ func scenC10(k *K) {
 		}
 		return nil
 	}
-	kinds := []string{"nonwriter", "forged-block", "foreign-db", "wrong-hash", "forged-dangling", "forged-block-and-key"}
+	kinds := []string{"nonwriter", "forged-block", "foreign-db", "wrong-hash", "forged-dangling", "forged-block-and-key", "altered-valid"}
 	if collude {
 		kinds = append(kinds, "forged-ancestor", "forged-ancestor", "foreign-ancestor", "foreign-ancestor")
 	}
